@@ -32,7 +32,7 @@ def main():
     pid = args[0]
     only = args[1:] or None
     src = f"/tmp/seed/{pid}/out"
-    for k in (1, 2, 3, 4, 5):
+    for k in range(1, 10):
         name = f"m{k}"
         if only and name not in only:
             continue
